@@ -152,11 +152,11 @@ func H_C03_ctrlflow_deterministic() {
 		}
 	}
 	s := set[symx.Choose(len(set))]
-	params := []string{"flatten_passes=1", "flatten_passes=0", "flatten_passes=1 block_splits=1 junk_jumps=1"}[symx.Choose(tier(2, 3))]
+	params := []string{"flatten_passes=1", "flatten_passes=0", "flatten_passes=1 block_splits=1 junk_jumps=1"}[symx.Choose(tier(2, 2))]
 	src := "package p\n\n//garble:controlflow " + params + "\n" + s.Src + "\n"
 	once := func() string {
 		nameCounter = 0
-		symx.DrawPolicy(tvPolicy(tier(0, 1), false))
+		symx.DrawPolicy(tvPolicy(0, false))
 		file, fset := tvBuild(src)
 		symx.DrawPolicy(nil)
 		if file == nil {
